@@ -7,6 +7,8 @@ import VyxalModel.Model.PyDump
 import VyxalModel.Gen.Elements
 import VyxalModel.Gen.Modifiers
 import VyxalModel.Model.LazyList
+import VyxalModel.Model.Input
+import VyxalModel.Model.Num
 import VyxalModel.Gen.Codepage
 /-! Line protocol: `cmd<TAB>argument`; one answer line per request. -/
 open Vy
@@ -59,6 +61,44 @@ def llCmd (arg : String) : String :=
     " ; ".intercalate (as.map showAns)
   | _ => "BADARG"
 
+def parseInpOp (s : String) : Option Inp.Op :=
+  match s.splitOn ":" with
+  | ["e"] => some .explicit
+  | ["i"] => some .implicit
+  | ["l"] => some .leave
+  | ["n"] => some (.enter [])
+  | ["n", a] => some (.enter ((a.splitOn ",").filterMap String.toInt?))
+  | _ => none
+
+def inpCmd (arg : String) : String :=
+  match arg.splitOn "|" with
+  | [insS, opsS] =>
+    let ops := (if opsS.isEmpty then [] else opsS.splitOn " ").filterMap parseInpOp
+    let r := Inp.run ops (Inp.St.init (parseInts insS))
+    " ".intercalate (r.map (fun o => match o with
+      | none => "-"
+      | some (true, v) => s!"T{v}"
+      | some (false, v) => s!"S{v}"))
+  | _ => "BADARG"
+
+def parseNum (rep p q : String) : NumM.Num :=
+  let r : NumM.Rep := match rep with | "i" => .pyInt | "I" => .symInt | _ => .symRat
+  ⟨mkRat (parseIntS p) (parseIntS q).toNat, r⟩
+
+def showNum (n : NumM.Num) : String :=
+  (match n.rep with | .pyInt => "i" | .symInt => "I" | .symRat => "R") ++ s!" {n.val.num}/{n.val.den}"
+
+def arithCmd (arg : String) : String :=
+  match arg.splitOn " " with
+  | [op, ra, pa, qa, rb, pb, qb] =>
+    let o : Option NumM.Op := match op with
+      | "add" => some .add | "sub" => some .sub | "mul" => some .mul | "div" => some .div
+      | "idiv" => some .idiv | "mod" => some .mod | _ => none
+    (match o with
+     | some o => showNum (NumM.apply o (parseNum ra pa qa) (parseNum rb pb qb))
+     | none => "BADOP")
+  | _ => "BADARG"
+
 def answer (cmd arg : String) : String :=
   match cmd with
   | "tok" => showToks (tokenise (parseCps arg))
@@ -87,7 +127,31 @@ def answer (cmd arg : String) : String :=
       | .ok r => showOptCps (some r)
       | .error .syntax => "ERR syntax"
       | .error .unmodelled => "ERR unmodelled")
+  | "todigits" => (match parseCps arg with
+      | [b, n] => showOptCps (some (toDigits b n))
+      | _ => "BADARG")
+  | "fromdigits" => (match parseCps arg with
+      | b :: ds => toString (fromDigits b ds)
+      | _ => "BADARG")
+  | "tobaseloop" => (match parseCps arg with
+      | [b, e, n] => showOptCps (some (toBaseLoop b e n))
+      | _ => "BADARG")
+  | "cnum" => (match parseCps arg with
+      | [e, n] => showOptCps (some (compressNum Gen.numCompress e n))
+      | _ => "BADARG")
+  | "cstr" => (match parseCps arg with
+      | [e, n] => showOptCps (some (compressStr Gen.strCompress e n))
+      | _ => "BADARG")
+  | "ucnum" => (match uncompressNum Gen.numCompress (parseCps arg) with
+      | some n => toString n
+      | none => "ERR")
+  | "ucstr" => showOptCps (uncompressStr Gen.strCompress Gen.base27 (parseCps arg))
+  | "frombase27" => (match fromAlphabet Gen.base27 (parseCps arg) with
+      | some n => toString n
+      | none => "ERR")
+  | "arith" => arithCmd arg
   | "ll" => llCmd arg
+  | "inp" => inpCmd arg
   | _ => "BADCMD"
 
 partial def loop (h : IO.FS.Stream) (out : IO.FS.Stream) : IO Unit := do
